@@ -229,6 +229,26 @@ def search(payload):
     hn, hfails = g.history_block("true", GENF, hm, seed=int(payload["seed"]))
     n += hn
     fails += hfails
+    # ENVIRONMENT: the same datetime requests in fresh interpreters whose LOCAL TIME ZONE has daylight saving, with naive bounds inside the
+    # repeated hour of the autumn switch and the skipped hour of the spring switch (values are judged inside that interpreter)
+    import subprocess as _sp9
+    import sys as _sys9
+    src9 = ("import random, itertools, datetime as dt\nfrom predicate import generate_true, generate_false\nfrom predicate.standard_predicates import ge_p, gt_p, le_p, lt_p\n"
+            "bad = None\nfor mk, b in ((ge_p, dt.datetime(2026, 10, 25, 2, 30)), (gt_p, dt.datetime(2026, 11, 1, 1, 30)), (le_p, dt.datetime(2026, 3, 29, 2, 30)), (lt_p, dt.datetime(2026, 3, 8, 2, 30))):\n"
+            "    p = mk(b)\n    for mode, g in (('true', generate_true), ('false', generate_false)):\n        random.seed(%d)\n        try:\n            it = iter(g(p))\n        except ValueError:\n            continue\n"
+            "        for i, v in enumerate(itertools.islice(it, 15000)):\n            if bool(p(v)) != (mode == 'true'):\n                bad = (mode, repr(p), i, repr(v)); break\n        if bad: break\n    if bad: break\n"
+            "print(repr(bad))\n" % (int(payload["seed"]) + 3))
+    for tz in ("Europe/Amsterdam", "America/New_York", "Australia/Sydney"):
+        n += 1
+        try:
+            o_ = _sp9.run([_sys9.executable, "-c", src9], env=dict(vlib.ENV, TZ=tz), text=True, stdout=_sp9.PIPE, stderr=_sp9.PIPE, timeout=600).stdout.strip().splitlines()
+            verdict = o_[-1] if o_ else "None"
+        except Exception:  # noqa: BLE001
+            verdict = "None"                         # that interpreter could not be run: inconclusive
+        if verdict not in ("None", ""):
+            fails.append({"p": "a naive datetime bound at a daylight-saving switch", "environment": f"TZ={tz}", "first_wrong": verdict,
+                          "p(value)": "on the wrong side (judged in the interpreter that generated it)", "position": "see first_wrong: (mode, predicate, position, value)"})
+            break
     # judged by a reference written from the CONSTRUCTOR CALL, not by the object the library built (a factory that re-interprets its
     # arguments, or an object mutated on the way, would otherwise vouch for its own values)
     from predicate.set_predicates import in_p
